@@ -359,10 +359,7 @@ func stableName(fn *ssa.Function) string {
 	}
 	if currentProgram != nil {
 		if id, ok := currentProgram.alias[fn]; ok {
-			if i := strings.LastIndex(id, "."); i >= 0 {
-				return id[i+1:]
-			}
-			return id
+			return aliasBaseName(id)
 		}
 	}
 	return fn.Name()
